@@ -13,7 +13,9 @@ def main(ctx):
         "position); output cursors only advance by one and pos stores that cursor; crd stores the level's own loop "
         "variable under the flag, at most one append per iteration, loops ordered by the co-iteration lattice (strict "
         "increase, lemma L2); final realloc sizes crd->p, pos->parents+1, vals->(p+1)*trailing dims; every struct "
-        "slot assigned after the last realloc of its array."
+        "slot assigned after the last realloc of its array; every store into an output array lands inside its current "
+        "allocation (C05's capacity analysis: a value or position written past the end of a too-small array is lost, so "
+        "'a value for every stored position' needs it)."
     )
     ctx.assumptions = FAMILY_ASSUMPTIONS + ["lemma L2 (DESIGN.md section 6) for strict increase of coordinates in sparse loops"]
     sweep(
@@ -27,6 +29,8 @@ def main(ctx):
             "flags.flag_iff_supported",
             "addr.lattice_order",
             "own.handback",
+            "bounds.memory_safety",
+            "bounds.capacity_init",
         ],
     )
     ctx.rule("C02.K-cover", min_instances=1500)
